@@ -131,6 +131,17 @@ func runBatchCase(t *testing.T, sc *BatchSc, qp func(x *batchExec) string) (x *b
 		}
 		x.qp = qp
 		br = x.run()
+		sawPrep := false
+		for _, e := range br.Events {
+			if e.Kind == "prep" {
+				sawPrep = true
+			}
+		}
+		if !sawPrep && br.Panic == "" {
+			// the harness installs its prep/fallback callbacks by replacing the batch node's
+			// embedded CustomNode; if an implementation ignores that, nothing can be observed
+			br.Panic = "HARNESS-INCONCLUSIVE: the batch node never called the harness's prep callback (callbacks could not be installed)"
+		}
 	})
 	return
 }
